@@ -1638,9 +1638,37 @@ func zzC03Mode(v *zzC03Vec) (m string) {
 	return "block"
 }
 
+func zzC03Sig(level string, v *zzC03Vec, ar *zzC03AReq, want []string, got string) (sig string) {
+	// The configuration's unusual ingredients are part of the signature, so
+	// that a disagreement under an ordinary configuration is never counted
+	// under the signature of one that has them.
+	trig := ""
+	for _, e := range append(append([]zzC03Entry{}, v.Allowed...), v.Disallowed...) {
+		if e.K == "id" && e.Sp == "mixed" && !strings.Contains(trig, "I") {
+			trig += "I"
+		}
+
+		if e.K != "id" && e.Sp == "mapped" && !strings.Contains(trig, "M") {
+			trig += "M"
+		}
+	}
+
+	for _, p := range v.Hosts {
+		if p.K == "re" && !strings.Contains(trig, "R") {
+			trig += "R"
+		}
+	}
+
+	if ar.ID == zzC03BadID {
+		trig += "B"
+	}
+
+	return fmt.Sprintf("%s/%s/%s/%s/%s->%s", level, ar.Form, zzC03Mode(v), trig, strings.Join(want, "|"), got)
+}
+
 // bad registers a reproduced disagreement.
 func (rec *zzC03Rec) bad(level string, v *zzC03Vec, c [3][]string, ar *zzC03AReq, r *zzC03Req, want []string, got string, extra map[string]any) {
-	sig := fmt.Sprintf("%s/%s/%s/%s->%s", level, ar.Form, zzC03Mode(v), strings.Join(want, "|"), got)
+	sig := zzC03Sig(level, v, ar, want, got)
 	rec.bySig[sig]++
 	if rec.bySig[sig] > zzC03MaxPerSig {
 		return
@@ -1924,6 +1952,16 @@ func zzC03Probe(z *zzC03Srv, v *zzC03Vec, cl [3][]string, c *zzC03Conc, rng *ran
 		return got
 	}
 
+	// A disagreement of a signature that has already been reproduced and
+	// recorded zzC03MaxPerSig times is only counted: re-measuring silence with
+	// the long bound costs seconds.
+	if sig := zzC03Sig("transport", v, ar, want, got); !zzC03In(want, got) && rec.bySig[sig] >= zzC03MaxPerSig {
+		rec.bySig[sig]++
+		rec.counts["transport_counted_only"]++
+
+		return got
+	}
+
 	// Re-measure alone, with the long bound for silence.
 	got, d = measure(true)
 	eff = 0
@@ -1946,7 +1984,7 @@ func zzC03Probe(z *zzC03Srv, v *zzC03Vec, cl [3][]string, c *zzC03Conc, rng *ran
 			pr.Addr = plain.String()
 		}
 
-		po := z.transport(&pr, ctl, true)
+		po := z.transport(&pr, ctl, false)
 		extra["plain_out"] = po
 		extra["plain_agrees"] = zzC03In(want, po)
 	}
@@ -2056,8 +2094,16 @@ func zzC03Transports(z *zzC03Srv, u, v *zzC03Vec, rng *rand.Rand, rec *zzC03Rec)
 			// probing one that the spec says is served without a ClientID.
 			var ctl *zzC03Ctl
 			for _, j := range rng.Perm(len(u.Addrs)) {
-				if u.Addrs[j].Fam == "v4" && v.Ex[j*nid] == 0 && j != pl.cc.ai {
-					ctl = &zzC03Ctl{src: c.addr("v4", u.Addrs[j].Bits), name: zzC03ControlName}
+				if u.Addrs[j].Fam != "v4" || v.Ex[j*nid] != 0 || j == pl.cc.ai {
+					continue
+				}
+
+				// The control only shows that the server is alive: take a
+				// client that the server at hand does serve (waiting for a
+				// control that is never answered costs seconds per probe).
+				ca := c.addr("v4", u.Addrs[j].Bits)
+				if bl, _ := z.s.IsBlockedClient(ca, ""); !bl {
+					ctl = &zzC03Ctl{src: ca, name: zzC03ControlName}
 
 					break
 				}
